@@ -108,7 +108,8 @@ def c02(kind, case, r):
 def c05(kind, case, r):
     if livelock(r) and not has_fail(case):
         return livelock(r)
-    if r["verdict"] == "deadlock":
+    if r["verdict"] == "deadlock" or (r["verdict"] == "quiescent" and "M" in r.get("parked", {})):
+        # quiescent with the client parked: only fruitless pollers still run, the client waits forever
         why = "shutdown / program blocks forever: parked %r" % (r.get("parked"),)
         if has_fail(case) and after_failed_shutdown(r):
             return tag(why, "D25")
